@@ -8,12 +8,15 @@ from common import case_line, parse_result
 from gen import medium_run, rand_bounds
 
 LEVEL = "proof"
+COUNTS = ["c"]        # modes of cases.count_thresholds
 BIG_IO = lambda a: "-c" in a        # which command lines of cases.rand_cli the large-input stream keeps
 CHARS = ["a", " ", "é", "€", "😎", "́", "-", "Z", " ", "中"]
+# the first and last scalar of every UTF-8 length class and of every lead-byte class with its own rule (C2, DF, E0, E1, ED, EE, EF, F0, F1, F4)
+EDGES = ["\x7f", "\x80", "\u07ff", "\u0800", "\u0fff", "\u1000", "\ud7ff", "\ue000", "\ufffd", "\uffff", "\U00010000", "\U0003ffff", "\U00040000", "\U0010ffff"]
 
 
 def _run_once(chk):
-    chk.rule = ("valid UTF-8 records of 0-6 scalars from {a, space, é, €, 😎, U+0301, -, Z, NBSP, 中} (1-4 byte encodings, combining mark, "
+    chk.rule = ("valid UTF-8 records of 0-6 scalars from {a, space, é, €, 😎, U+0301, -, Z, NBSP, 中} (1-4 byte encodings, combining mark; in 40 % of the cases also the first / last scalar of every UTF-8 length and lead-byte class: U+7F U+80 U+7FF U+800 U+FFF U+1000 U+D7FF U+E000 U+FFFD U+FFFF U+10000 U+3FFFF U+40000 U+10FFFF, "
                 "characters next to word boundaries), 1-3 records, -z, bounds with sides in ±5/open, plain or formatted, fallbacks; "
                 "dispatch as main does; non-trivial = selects a character or fails")
     run_corpus(chk)
@@ -23,7 +26,8 @@ def _run_once(chk):
     for _ in range(n):
         z = rng.random() < 0.25
         eol = b"\0" if z else b"\n"
-        recs = ["".join(rng.choice(CHARS) for _ in range(rng.randint(0, 6))) for _ in range(rng.randint(1, 3))]
+        pool = CHARS + EDGES if rng.random() < 0.4 else CHARS
+        recs = ["".join(rng.choice(pool) for _ in range(rng.randint(0, 6))) for _ in range(rng.randint(1, 3))]
         if rng.random() < 0.03:
             recs[0] += "".join(medium_run(rng, CHARS))          # a record of 15-513 characters
         inp = eol.join(r.encode() for r in recs) + (eol if rng.random() < 0.7 else b"")
